@@ -78,7 +78,7 @@ class AddH(Harness):
         kids = concretise_children(model, fam, k, None)
         pid = _mv(model, st["p"]._var().id.t)
         ids = [_mv(model, fam.fn("id")(z3.IntVal(j))) for j in range(k)]
-        p = concretise_children(model, st["p"]._fam, 1, None)[0]
+        p = concretise_children(model, st["p"]._fam, 1, None, extra_bool=("generated_id",))[0]
         return {"children": kids, "p": p, "clash_with": ids.index(pid) if pid in ids else None}
 
     def replay(self, w):
@@ -95,6 +95,10 @@ class AddH(Harness):
             w["p"]["id"] = w["children"][w["clash_with"]]["id"]
         kids, _ = build_children(w["children"])
         p = build_children([w["p"]])[0][0]
+        if w["clash_with"] is not None and w["p"].get("generated_id") and w["p"]["kind"] == "compound":
+            # a rule without explicit id clashes through its generated id: the same anonymous rule is already there
+            kids[w["clash_with"]] = pg.Any("pa", "pb")
+            p = pg.Any("pa", "pb")
         cfg = cc.StingyConfigurator(*kids, id="cfg")
         before = cfg.to_text()
         violated = []
